@@ -404,6 +404,19 @@ def single_home(ctx, prog):
             else:
                 ctx.violation(rule, body.id, "graveyard.%s" % name, "the saved-session map is modified outside save_state / save_metrics / retrieve", site=body.loc(t.get("sp")))
     ctx.floor(rule, "graveyard map mutations", n, 3)
+    # retrieve() takes the session OUT of the graveyard: only the function that hands it to a new connection may call
+    # it (a status query, a metrics tick, ... would silently end a persistent session)
+    sites = 0
+    for body, bb, t in call_sites(prog, r"router::graveyard::Graveyard::retrieve$"):
+        sites += 1
+        if re.search(r"^router::routing::Router::handle_new_connection$", body.id):
+            ctx.ok(rule, body.id, "Graveyard::retrieve (consuming) called by the session restore", site=body.loc(t.get("sp")))
+        else:
+            ctx.violation(rule, body.id, "session taken out of the graveyard",
+                          "%s calls Graveyard::retrieve, which REMOVES the saved state of a disconnected client, without handing it to a new connection: the persistent session (subscriptions, cursors, unacknowledged state) is gone, "
+                          "the client's next connect with clean-session off gets session_present = false and nothing that was accepted while it was away" % body.id,
+                          site=body.loc(t.get("sp")))
+    ctx.floor(rule, "callers of Graveyard::retrieve", sites, 1)
 
 
 def cursor_chain(ctx, prog):
